@@ -533,23 +533,21 @@ def shrink(case, sig):
     # sizes: the smallest value of each larger integer literal that still fails (bisection; shows where the boundary is)
     import re
     done = 0
-    for m in list(re.finditer(r"(?<![\w.'\"])\d{1,6}(?![\w.'\"])", cur["code"])):
+    for m in reversed(list(re.finditer(r"(?<![\w.'\"])\d{1,6}(?![\w.'\"])", cur["code"]))):     # last first: spans stay valid
         if done >= 3 or int(m.group()) < 4:
             continue
         lo, hi = 0, int(m.group())          # invariant: hi fails
         start, end = m.span()
-        if cur["code"][start:end] != m.group():
-            break                           # an earlier replacement moved the text: enough
         while hi - lo > 1 and budget > -24:
             mid = (lo + hi) // 2
             budget -= 1
-            cand = dict(cur, code=cur["code"][:start] + str(mid).rjust(end - start) + cur["code"][end:])
+            cand = dict(cur, code=cur["code"][:start] + str(mid) + cur["code"][end:])
             v = verdict(cand)
             if v and v[0] == sig:
                 hi = mid
             else:
                 lo = mid
-        cur = dict(cur, code=cur["code"][:start] + str(hi).rjust(end - start) + cur["code"][end:])
+        cur = dict(cur, code=cur["code"][:start] + str(hi) + cur["code"][end:])
         done += 1
     return cur
 
